@@ -28,6 +28,7 @@ type RunConfig struct {
 	LogDir                string
 	MaxViolationsPerLabel int
 	IncTimeoutMs int // timeout of the incremental solver before the one-shot fallback
+	CrossCheck   int // re-decide up to this many discharged obligations per harness with the other solvers
 	CheckIntOverflow      bool
 	Known                 map[string][]*KnownFinding
 }
@@ -81,13 +82,16 @@ type HarnessRun struct {
 	SolveTime                    time.Duration
 	Funcs                        map[string]bool
 	DepGlobals                   map[string]bool
+	CrossChecked                 int
+	CrossAgree                   map[string]int
+	CrossUnknown                 map[string]int
 	Wall                         time.Duration
 	infeasible                   int
 }
 
 func newHarnessRun(pkg, name string) *HarnessRun {
 	return &HarnessRun{Name: name, Pkg: pkg, AssertsChecked: map[string]int{}, AssertsTrivial: map[string]int{}, Reached: map[string]int{},
-		violCount: map[string]int{}, witnessFor: map[string]bool{}, Aborts: map[string]int{}, Panics: map[string]int{}, Funcs: map[string]bool{}, DepGlobals: map[string]bool{}}
+		violCount: map[string]int{}, witnessFor: map[string]bool{}, Aborts: map[string]int{}, Panics: map[string]int{}, Funcs: map[string]bool{}, DepGlobals: map[string]bool{}, CrossAgree: map[string]int{}, CrossUnknown: map[string]int{}}
 }
 
 // pathState: per-path harness bookkeeping (merged into HarnessRun at path end)
@@ -702,7 +706,25 @@ func (e *Exec) checkAssert(c *Term, label string) {
 	case RUnsat:
 		hr.mu.Lock()
 		hr.AssertsChecked[label]++
+		doCross := e.Cfg.CrossCheck > 0 && hr.CrossChecked < e.Cfg.CrossCheck
+		if doCross {
+			hr.CrossChecked++
+		}
 		hr.mu.Unlock()
+		if doCross {
+			for kind, cr := range e.Solver.CrossCheck(30000) {
+				hr.mu.Lock()
+				switch cr {
+				case RUnsat:
+					hr.CrossAgree[kind]++
+				case RUnknown:
+					hr.CrossUnknown[kind]++
+				case RSat:
+					hr.Aborts["SOLVER: conflict on "+label+": "+e.Solver.kind+" says unsat, "+kind+" says sat"]++
+				}
+				hr.mu.Unlock()
+			}
+		}
 	case RSat:
 		e.reportViolation("assert", label, "")
 	default:
